@@ -77,3 +77,88 @@ def replay(args):
     if not ok:
         print("%s(string_output=%r, file=%r): wrong accept/reject" % (args["name"], args["string_output"], args["use_file"]))
     return not ok
+
+
+# ------------------------------------------------------------------------- C18: concrete call-history replays (not solver-decided)
+
+BIG_NS = {"http://ex.org/": "ex"}
+
+
+def _big_doc(n_classes):
+    lines = []
+    for i in range(n_classes):
+        for j in range(2):
+            s = "<http://ex.org/i%d_%d>" % (i, j)
+            lines.append('%s <http://www.w3.org/1999/02/22-rdf-syntax-ns#type> <http://ex.org/C%d> .' % (s, i))
+            for k in range(4 + j):
+                lines.append('%s <http://ex.org/p%d> "v%d" .' % (s, k, k))
+    return "\n".join(lines) + "\n"
+
+
+def history_problems(name):
+    from shexer.shaper import Shaper
+    from shexer.consts import SHEXC, SHACL_TURTLE
+    problems = []
+    if name == "examples-repeat":
+        sh = Shaper(raw_graph=DOC, all_classes_mode=True, examples_mode="all", namespaces_dict=dict(BIG_NS))
+        a = sh.shex_graph(string_output=True)
+        b = sh.shex_graph(string_output=True)
+        if a != b:
+            problems.append("repeating shex_graph with examples_mode changes the text:\n%s\n---\n%s" % (a, b))
+    elif name.startswith("file-vs-string"):
+        doc = _big_doc(900) if "10000" in name else DOC
+        sh = Shaper(raw_graph=doc, all_classes_mode=True, namespaces_dict=dict(BIG_NS))
+        a = sh.shex_graph(string_output=True)
+        fd, path = tempfile.mkstemp(suffix=".shex")
+        os.close(fd)
+        try:
+            Shaper(raw_graph=doc, all_classes_mode=True, namespaces_dict=dict(BIG_NS)).shex_graph(output_file=path)
+            b = open(path).read()
+        finally:
+            os.unlink(path)
+        if "10000" in name and a.count("\n") <= 10000:
+            problems.append("witness too small: %d lines" % a.count("\n"))
+        if a != b:
+            problems.append("file output differs from the returned string (%d vs %d characters)" % (len(b), len(a)))
+    elif name == "shared-namespaces-dict":
+        for user in ({"http://ex.org/": "ex"}, {"http://ex.org/": ""}, {"http://ex.org/": "weso-s", "http://x.org/": ""}):
+            shared = dict(user)
+            Shaper(raw_graph=DOC, all_classes_mode=True, namespaces_dict=shared).shex_graph(string_output=True, output_format=SHACL_TURTLE)
+            second = Shaper(raw_graph=DOC, all_classes_mode=True, namespaces_dict=shared).shex_graph(string_output=True)
+            alone = Shaper(raw_graph=DOC, all_classes_mode=True, namespaces_dict=dict(user)).shex_graph(string_output=True)
+            if second != alone:
+                problems.append("a Shaper built with a namespaces dict that another Shaper used before behaves differently (user dict %r):\n%s\n---\n%s" % (user, second, alone))
+    elif name == "format-after-format":
+        sh = Shaper(raw_graph=DOC, all_classes_mode=True, namespaces_dict=dict(BIG_NS))
+        sh.shex_graph(string_output=True, output_format=SHACL_TURTLE)
+        a = sh.shex_graph(string_output=True, output_format=SHEXC)
+        b = Shaper(raw_graph=DOC, all_classes_mode=True, namespaces_dict=dict(BIG_NS)).shex_graph(string_output=True, output_format=SHEXC)
+        if a != b:
+            problems.append("ShExC after SHACL on one Shaper differs from ShExC on a fresh Shaper:\n%s\n---\n%s" % (a, b))
+    return problems
+
+
+def run_history(res, name):
+    with shims.real_code():
+        problems = history_problems(name)
+    res["paths"] = 1
+    res["decisions"] = 1
+    res["reach"] = 1
+    res["witnesses"] = 1
+    res["extra"]["no_reach_needed"] = True
+    res["extra"]["not_solver_decided"] = True
+    res["samples"].append(dict(concrete_history=name))
+    if problems:
+        res["violations"].append(dict(what=problems[0][:300], replay=dict(family="api", args=dict(history=name)), expected="identical results", observed=problems[0][:300]))
+
+
+_replay_calls = replay
+
+
+def replay(args):  # noqa: F811
+    if "history" in args:
+        p = history_problems(args["history"])
+        if p:
+            print(p[0][:1500])
+        return bool(p)
+    return _replay_calls(args)
